@@ -1,0 +1,28 @@
+//go:build verif
+
+package sync
+
+// Contracts for the verification machinery in /verif (comment-only; not compiled without the tag "verif").
+
+// Start-up refusals are exactly the settings named by the property. After start-up, in every round the one
+// correction handed to adj.Do is bounded as the property states, whatever the two offsets received from the
+// measurement goroutines are (channel receives yield arbitrary int64 values), and exactly one adj.Do happens
+// between two clk.Sleep calls.
+//@ func Run
+//@   noreturn
+//@   requires clk != nil && adj != nil && log != nil
+//@   requires isfinite(cfg.ReferenceClockImpact) && isfinite(cfg.PeerClockImpact) && cfg.ReferenceClockImpact <= 1e6 && cfg.PeerClockImpact <= 1e6 && cfg.SyncInterval <= 1000000000000
+//@   modifies peerClks[:]
+//@   allocates
+//@   panics when cfg.ReferenceClockImpact <= 1.0 || cfg.PeerClockImpact <= 1.0 || cfg.PeerClockImpact-1.0 <= cfg.ReferenceClockImpact || cfg.SyncInterval <= 0 || cfg.SyncTimeout < 0 || cfg.SyncTimeout > cfg.SyncInterval/2
+//@   loop 0 invariant calls("Adjustment.Do") == calls("SystemClock.Sleep")
+//@   loop 0 invariant refClkMaxCorr > 0 && peerClkMaxCorr > 0
+//@   callsite adj.Do 0 requires calls("Adjustment.Do") == calls("SystemClock.Sleep")
+//@   callsite clk.Sleep 0 requires calls("Adjustment.Do") == calls("SystemClock.Sleep")+1
+//@   callsite adj.Do 0 requires refClkOk == (len(refClks) != 0) && (peerClkOff.Abs() <= cfg.PeerClockCutoff ==> !peerClkOk)
+//@   callsite adj.Do 0 requires refClkOk && !peerClkOk ==> corr == refClkCorr && float64(corr.Abs()) <= refClkMaxCorr
+//@   callsite adj.Do 0 requires !refClkOk && peerClkOk ==> corr == peerClkCorr && float64(corr.Abs()) <= peerClkMaxCorr
+//@   callsite adj.Do 0 requires refClkOk && peerClkOk ==> float64(refClkCorr.Abs()) <= refClkMaxCorr
+//@   callsite adj.Do 0 requires refClkOk && peerClkOk ==> float64(peerClkCorr.Abs()) <= peerClkMaxCorr
+//@   callsite adj.Do 0 requires refClkOk && peerClkOk ==> (refClkCorr <= peerClkCorr ==> refClkCorr <= corr && corr <= peerClkCorr) && (peerClkCorr <= refClkCorr ==> peerClkCorr <= corr && corr <= refClkCorr)
+//@   callsite adj.Do 0 requires !refClkOk && !peerClkOk ==> corr == 0
